@@ -13,7 +13,7 @@ import (
 )
 
 var rules = []*Rule{
-	{ID: "R1", Title: "MUST-FSYNC: durable before acknowledged", Props: []string{"C06", "C05", "C11", "C17"}, Run: ruleR1},
+	{ID: "R1", Title: "MUST-FSYNC: durable before acknowledged", Props: []string{"C06", "C05", "C08", "C11", "C17"}, Run: ruleR1},
 	{ID: "R2", Title: "FS-ORDER: multi-step file protocols keep a recoverable order", Props: []string{"C05", "C11", "C02", "C01", "C17", "C12"}, Run: func(p *Prog) []Ob { return append(append(append(append(ruleR2(p), p.overrideTargetObligations()...), p.removeRemovesLog()), p.atomicReplace()...), p.recoverReplaces()...)
 	}},
 	{ID: "R3", Title: "LOCKSET: every shared mutable field has a common guard", Props: []string{"C08", "C09", "C03"}, Run: func(p *Prog) []Ob { return append(ruleR3(p), ruleR3c(p)...) }},
@@ -25,7 +25,7 @@ var rules = []*Rule{
 		return append(append(append(ruleR11(p), p.deletedSizeVersion()...), p.publishLoopObligations()...), append(p.indexTimeSeed(), p.wholeIndexCompare()...)...)
 	}},
 	{ID: "R12", Title: "EFFECT-CONFINEMENT: who can change a log file", Props: []string{"C19", "C20"}, Run: ruleR12},
-	{ID: "R15", Title: "FLOCK-PAIRING", Props: []string{"C19"}, Run: ruleR15},
+	{ID: "R15", Title: "FLOCK-PAIRING", Props: []string{"C19", "C02"}, Run: ruleR15},
 	{ID: "R14", Title: "NOTIFY: publish-then-set, probe-under-token", Props: []string{"C18"}, Run: ruleR14},
 	{ID: "R13", Title: "SEGMENT-NAMES: what New prints, Find parses, and sorts", Props: []string{"C01", "C02"}, Run: func(p *Prog) []Ob { return append(ruleR13(p), p.findAdoptsAll()) }},
 	{ID: "R16", Title: "INDEX-OPTIONAL: an index file may always be missing", Props: []string{"C11", "C07", "C08"}, Run: func(p *Prog) []Ob { return append(append(ruleR16(p), p.reindexThresholdObligation()), p.rebuildUnderIndexLock()...) }},
@@ -48,7 +48,8 @@ var rules = []*Rule{
 	{ID: "R32", Title: "LAZY-LOG", Props: []string{"C14"}, Run: ruleR32},
 	{ID: "R33", Title: "TIME-VERBATIM", Props: []string{"C01", "C10"}, Run: ruleR33},
 	{ID: "R34", Title: "SEGMENT-IDENTITY", Props: []string{"C01", "C12"}, Run: ruleR34},
-	{ID: "R35", Title: "LOOKUP-OUTCOMES", Props: []string{"C09", "C10"}, Run: ruleR35},
+	{ID: "R35", Title: "LOOKUP-OUTCOMES", Props: []string{"C04", "C09", "C10"}, Run: ruleR35},
+	{ID: "R36", Title: "BOUNDARY-HAND-OFF", Props: []string{"C10"}, Run: ruleR36},
 	{ID: "R4", Title: "LOCK-ORDER: acyclic acquisition graph, no re-acquisition", Props: []string{"C08"}, Run: ruleR4},
 }
 
